@@ -873,10 +873,13 @@ func doFees(t *testing.T, run *emit.Run, p *pool, r *rand.Rand) {
 	var fees *evmtypes.Fees
 	var err error
 	ok := true
+	replay := map[string]any{"kind": "fees", "mult": mult.String(), "community": cf.String(), "security": sf.String(), "gas": gas}
 	func() {
 		defer func() {
 			if x := recover(); x != nil {
 				ok = false
+				// since the C09 fix the computation returns an error for every bad factor / overflow
+				run.Violate("C14:fee-calc-panic", fmt.Sprintf("calculateFeesForEstimate panicked: %v", x), replay)
 			}
 		}()
 		fees, err = e.cons.VerifCalculateFeesForEstimate(e.ctx, p.addrs[id], chains[0], gas)
@@ -885,7 +888,6 @@ func doFees(t *testing.T, run *emit.Run, p *pool, r *rand.Rand) {
 		ok = false
 	}
 	got := "None"
-	replay := map[string]any{"kind": "fees", "mult": mult.String(), "community": cf.String(), "security": sf.String(), "gas": gas}
 	if ok {
 		got = fmt.Sprintf("(Some (%d, %d, %d))", fees.RelayerFee, fees.CommunityFee, fees.SecurityFee)
 		// direct oracle: exact ceilings by integer arithmetic
@@ -897,8 +899,48 @@ func doFees(t *testing.T, run *emit.Run, p *pool, r *rand.Rand) {
 			run.Violate("C14:fee-not-ceiling", fmt.Sprintf("fees (%d,%d,%d) but ceilings are (%s,%s,%s)", fees.RelayerFee, fees.CommunityFee, fees.SecurityFee, wr, wc, ws), replay)
 		}
 	}
-	run.Count("fees", map[bool]string{true: "ok", false: "panic-or-error"}[ok])
+	run.Count("fees", map[bool]string{true: "ok", false: "error"}[ok])
 	run.Case(fmt.Sprintf("C14.CFees %s %s %s %s %s", emit.Z(mult), emit.Z(cf), emit.Z(sf), emit.ZU(gas), got), ok && gas > 0, replay)
+}
+
+// ---------- multiplicator validation on submission (real treasury msg server) ----------
+
+func doUpsert(t *testing.T, run *emit.Run, p *pool, r *rand.Rand) {
+	e := newEnv(t, 5, 1700000000)
+	maxM := new(big.Int).Mul(bi(1000000), e18)
+	var m *big.Int
+	switch r.Intn(8) {
+	case 0:
+		m = bi(0)
+	case 1:
+		m = new(big.Int).Add(maxM, bi(int64(r.Intn(3)-1)))
+	case 2:
+		m = bi(int64(r.Intn(3) - 1))
+	case 3:
+		m = new(big.Int).Neg(genDecRaw(r, false))
+	case 4:
+		m = emit.BigUpTo(r, 120)
+	default:
+		m = genDecRaw(r, true)
+	}
+	id := r.Intn(len(p.addrs))
+	srv := treasurykeeper.NewMsgServerImpl(*e.tre)
+	_, err := srv.UpsertRelayerFee(e.ctx, &treasurytypes.MsgUpsertRelayerFee{FeeSetting: &treasurytypes.RelayerFeeSetting{ValAddress: p.strs[id],
+		Fees: []treasurytypes.RelayerFeeSetting_FeeSetting{{ChainReferenceId: chains[0], Multiplicator: dec(m)}}}})
+	fm, ferr := e.tre.GetRelayerFeesByChainReferenceID(e.ctx, chains[0])
+	if ferr != nil {
+		t.Fatal(ferr)
+	}
+	_, stored := fm[p.strs[id]]
+	replay := map[string]any{"kind": "upsert", "multiplicator": m.String()}
+	if stored != (err == nil) {
+		run.Violate("C14:upsert-outcome-store-disagree", fmt.Sprintf("UpsertRelayerFee(%s) err=%v but stored=%v", m, err, stored), replay)
+	}
+	if stored && (m.Sign() <= 0 || m.Cmp(maxM) > 0) {
+		run.Violate("C14:bad-multiplicator-stored", fmt.Sprintf("multiplicator %s accepted into the store", m), replay)
+	}
+	run.Count("upsert", map[bool]string{true: "accepted", false: "rejected"}[err == nil])
+	run.Case(fmt.Sprintf("C14.CUpsert %s %s", emit.Z(m), emit.Bool(err == nil)), true, replay)
 }
 
 // ---------- queue histories ----------
@@ -1045,9 +1087,11 @@ func doQueue(t *testing.T, run *emit.Run, p *pool, r *rand.Rand, hostile bool) {
 			func() {
 				defer func() {
 					if x := recover(); x != nil {
-						// fee arithmetic left uint64 / LegacyDec range inside the end-blocker: the chain
-						// would halt here (C09, F6).  Nothing after it is meaningful: end the history.
+						// a panic inside the end-blocker halts the chain (C09, F6 — repaired on the merged
+						// tree: fee arithmetic now returns errors).  Nothing after it is meaningful.
 						run.Count("op", "endblock-panic")
+						run.Violate("C14:endblock-fee-panic", fmt.Sprintf("CheckAndProcessEstimatedMessages panicked: %v", x),
+							map[string]any{"kind": "queue", "config": cfg, "nv": nv, "steps": append([]string{}, steps...)})
 						halted = true
 					}
 				}()
@@ -1270,6 +1314,9 @@ func TestCorr(t *testing.T) {
 	}
 	for i := 0; i < nFees; i++ {
 		doFees(t, run, p, r)
+	}
+	for i := 0; i < nFees/2; i++ {
+		doUpsert(t, run, p, r)
 	}
 	for i := 0; i < nQueue; i++ {
 		doQueue(t, run, p, r, r.Intn(100) < 15)
